@@ -80,3 +80,29 @@ def chain_level(level, depth, method, obj, conn, n):
         rep['error'] = '%s: %s' % (type(exc).__name__, str(exc)[:300])
     conn.send(rep)
     conn.close()
+
+
+# ---- the owner drops its reference while the child still uses the object
+class Holder:
+    """carries a shared object into the child; the parent can drop the object without dropping the holder"""
+    obj = None
+
+
+def orphan_child(holder, conn, store):
+    try:
+        obj = holder.obj
+        conn.send(snapshot(obj))
+        conn.recv()                    # the parent dropped its reference and allocated another object
+        seen = snapshot(obj)
+        import ctypes
+        raw = obj.get_obj() if hasattr(obj, 'get_obj') else obj
+        if isinstance(raw, ctypes.Array):
+            for j in range(len(raw)):
+                raw[j] = store
+        else:
+            raw.value = store
+        conn.send(seen)
+        conn.recv()
+    except Exception as exc:
+        conn.send('error %s: %s' % (type(exc).__name__, str(exc)[:200]))
+    conn.close()
